@@ -6,7 +6,6 @@ package checks
 
 import (
 	"fmt"
-	"os"
 	"sort"
 	"strings"
 	"sync"
@@ -181,16 +180,11 @@ type c01Data struct {
 }
 
 func runC01(c *vlib.Ctx) {
-	dir, err := os.MkdirTemp("/dev/shm", "verif-c01-")
-	if err != nil {
-		dir, _ = os.MkdirTemp("", "verif-c01-")
-	}
-	defer os.RemoveAll(dir)
-	if err := vsrv.Boot(dir, vsrv.Options{}); err != nil {
-		c.Violate("harness:boot", err.Error(), nil)
+	cleanup, ok := bootTemp(c, vsrv.Options{})
+	if !ok {
 		return
 	}
-	defer vsrv.Shutdown()
+	defer cleanup()
 
 	maxN := 5
 	if c.Thorough() {
